@@ -12454,6 +12454,7 @@ C_<TN_, TA_, SG_, TH_, TS_...>::resolveRandom(Control& control,
 	HFSM2_ASSERT(0.0f <= random && random < 1.0f);
 
 	Utility cursor = random * sum;
+	Prong last = 0;
 
 	for (Prong i = 0; i < count<Prong>(ranks); ++i)
 		if (ranks[i] == top) {
@@ -12466,10 +12467,14 @@ C_<TN_, TA_, SG_, TH_, TS_...>::resolveRandom(Control& control,
 
 				return i;
 			}
+
+			last = i;
 		}
 
-	HFSM2_BREAK();
-	return INVALID_PRONG;
+	// 'sum' is accumulated with rounding, 'cursor' can overshoot the last candidate
+	HFSM2_LOG_RANDOM_RESOLUTION(control.context(), HEAD_ID, last, random);
+
+	return last;
 }
 
 template <typename TN_, typename TA_, Strategy SG_, typename TH_, typename... TS_>
